@@ -130,6 +130,11 @@ type Job struct {
 	// uninterrupted run's length.
 	TraceAll bool `json:"trace_all"`
 	ResetAt  int  `json:"reset_at"`
+	// Repeat > 1: run the whole job that many times in THIS process (fresh
+	// simulation and reset ID generator each time) and report every run's
+	// event list in Result.Repeats (two simulations in one process must not
+	// influence each other).
+	Repeat int `json:"repeat"`
 }
 
 // Result is what a child reports.
@@ -141,6 +146,7 @@ type Result struct {
 	DriverState   []DriverState       `json:"driver_state"`
 	CtlState      CtlState            `json:"ctl_state"`
 	Stats         map[string]int      `json:"stats"`
+	Repeats       [][]EvRec           `json:"repeats,omitempty"`
 	Trace         []TraceEv           `json:"trace,omitempty"`
 	Resets        map[string][]uint64 `json:"resets,omitempty"` // component -> instants at which it acknowledged a Reset
 	OpenAtReset   int                 `json:"open_at_reset"`
@@ -238,6 +244,16 @@ func ChildMain() {
 		os.Exit(3)
 	}
 	res := RunJob(j)
+	if j.Repeat > 1 {
+		res.Repeats = append(res.Repeats, res.Events)
+		for i := 1; i < j.Repeat; i++ {
+			r := RunJob(j)
+			if r.Error != "" && res.Error == "" {
+				res.Error = fmt.Sprintf("repeat %d: %s", i, r.Error)
+			}
+			res.Repeats = append(res.Repeats, r.Events)
+		}
+	}
 	out, _ := json.Marshal(res)
 	if err := os.WriteFile(j.Result, out, 0o644); err != nil {
 		fmt.Fprintln(os.Stderr, err)
